@@ -20,16 +20,21 @@ run_one() { # name patch checks...
   done
   git -C "$REPO" checkout -q -- . ; git -C "$REPO" clean -fdq
 }
+# SEED_PART=i/n restricts the run to every n-th seed starting with the i-th (for parallel runs on separate copies)
+PART_I=${SEED_PART%%/*}; PART_N=${SEED_PART##*/}; [ -n "${SEED_PART:-}" ] || { PART_I=0; PART_N=1; }
+idx=0
 for d in seeded/*/; do
+  idx=$((idx+1)); [ $((idx % PART_N)) -eq "$PART_I" ] || continue
   n=$(basename "$d")
   checks=$(python3 -c "import json,sys; m=json.load(open('$d/meta.json')); print(' '.join(m['caught_by'][:1] or [m['breaks_property']]))")
   run_one "$n" "$PWD/$d/patch.diff" $checks
 done
 for m in mutants/*.patch; do
+  idx=$((idx+1)); [ $((idx % PART_N)) -eq "$PART_I" ] || continue
   n=$(basename "$m" .patch); run_one "$n" "$PWD/$m" "${n%%-*}"
 done
 echo "clean tree:"
-for p in C01 C02 C03 C04 C05 C06 C07 C08 C09 C10 C11 C12 C13 C14 C15 C16 C17 C18 C19; do
+[ "$PART_I" -eq 0 ] && for p in C01 C02 C03 C04 C05 C06 C07 C08 C09 C10 C11 C12 C13 C14 C15 C16 C17 C18 C19; do
   out=$(./check "$p" quick 2>/dev/null); rc=$?; [ $rc -eq 0 ] || { echo "  $p exit $rc ON THE CLEAN TREE"; missed=$((missed+1)); }
 done
 echo "SUMMARY: $total (seed, check) pairs, $missed problem(s)"
